@@ -19,3 +19,83 @@ Example C05_nonvacuous :
                [0; 0; 0; 1; 1]%nat in
   enabled s 1 = false /\ enabled s 0 = true.
 Proof. split; reflexivity. Qed.
+
+(* ==== all schedules (DB/Invariants.v, DB/Visibility.v, DB/Reach.v) ================================
+   `reach ntab actors sched = run (init_st ntab actors) sched` for ANY schedule of ANY well-formed system
+   (wf_system: wf_actors + pairwise distinct transaction ids). Table contents are abstracted to the set of
+   ids of the transactions whose writes they contain (tv_ids). *)
+From SV Require Import DB.Invariants DB.Locks DB.Visibility DB.Reach.
+Open Scope nat_scope.
+
+(* MUTUAL EXCLUSION: two different actors never hold the same table (between WriteTxn returning and the
+   unlock step of Commit / Abort an actor holds its whole lock set) *)
+Theorem C05_mutual_exclusion : forall ntab actors sched i j a b t, wf_actors ntab actors ->
+  let s := reach ntab actors sched in
+  nth_error (s_actors s) i = Some a -> nth_error (s_actors s) j = Some b ->
+  In t (held a) -> In t (held b) -> i = j.
+Proof. exact mutual_exclusion_reachable. Qed.
+Print Assumptions C05_mutual_exclusion.
+
+(* while an actor holds table t, no step of any other actor changes the committed entry of t *)
+Theorem C05_held_entry_stable : forall ntab actors sched i j b t, wf_actors ntab actors ->
+  let s := reach ntab actors sched in
+  j <> i -> nth_error (s_actors s) j = Some b -> In t (held b) ->
+  nth_error (s_root (step s i)) t = nth_error (s_root s) t.
+Proof. exact held_entry_stable_reachable. Qed.
+Print Assumptions C05_held_entry_stable.
+
+(* CLONE IS LATEST: from its root load to its root store (or abort) the private entry of every table a
+   writer holds is the CURRENT committed entry (before its writes), resp. has the current committed id set
+   plus its own id on the tables it writes (after them) *)
+Theorem C05_clone_is_latest : forall ntab actors sched i a t, wf_system ntab actors ->
+  let s := reach ntab actors sched in
+  nth_error (s_actors s) i = Some a -> In t (a_locks a) ->
+  (a_pc a = PRootLoaded -> nth_error (a_entries a) t = nth_error (s_root s) t) /\
+  (a_pc a = PCommitIdx \/ a_pc a = PRootLocked \/ a_pc a = PAbortBefore ->
+   exists v e, nth_error (s_root s) t = Some v /\ nth_error (a_entries a) t = Some e /\
+               forall x, In x (tv_ids e) <-> (x = a_id a /\ In t (writes_of a)) \/ In x (tv_ids v)).
+Proof. exact clone_is_latest_reachable. Qed.
+Print Assumptions C05_clone_is_latest.
+
+(* ... hence a writer sees every write committed to a table it holds *)
+Theorem C05_sees_all_committed : forall ntab actors sched i a j b t, wf_system ntab actors ->
+  let s := reach ntab actors sched in
+  nth_error (s_actors s) i = Some a -> In t (a_locks a) ->
+  a_pc a = PRootLoaded \/ a_pc a = PCommitIdx \/ a_pc a = PRootLocked \/ a_pc a = PAbortBefore ->
+  nth_error (s_actors s) j = Some b -> committed b = true -> In t (writes_of b) ->
+  exists e, nth_error (a_entries a) t = Some e /\ In (a_id b) (tv_ids e).
+Proof. exact sees_all_committed_reachable. Qed.
+Print Assumptions C05_sees_all_committed.
+
+(* NO LOST WRITE: an id visible in the committed entry of t after schedule s1 is visible after s1 ++ s2 *)
+Theorem C05_no_lost_write : forall ntab actors s1 s2 t v x, wf_system ntab actors ->
+  nth_error (s_root (reach ntab actors s1)) t = Some v -> In x (tv_ids v) ->
+  exists v', nth_error (s_root (reach ntab actors (s1 ++ s2))) t = Some v' /\ In x (tv_ids v').
+Proof. exact no_lost_write_reachable. Qed.
+Print Assumptions C05_no_lost_write.
+
+(* REGISTRATION KEEPS ENTRIES / what a step can do to the root: nothing; or (registrar) append one fresh
+   entry; or (root store of a committing writer) keep the CURRENT length, keep the current entry of every
+   table outside its lock set - in particular of tables registered after it loaded the root - and add
+   exactly its own id to the tables of its lock set that it writes *)
+Theorem C05_root_step_cases : forall ntab actors sched i, wf_system ntab actors ->
+  let s := reach ntab actors sched in
+  s_root (step s i) = s_root s \/
+  (exists a, nth_error (s_actors s) i = Some a /\ a_kind a = KRegistrar /\ a_pc a = PRegLocked /\
+             s_root (step s i) = s_root s ++ [mkV [] (s_nextw s) None]) \/
+  (exists a, nth_error (s_actors s) i = Some a /\ a_pc a = PRootLocked /\ commits a = true /\
+     length (s_root (step s i)) = length (s_root s) /\
+     (forall t, ~ In t (a_locks a) -> nth_error (s_root (step s i)) t = nth_error (s_root s) t) /\
+     (forall t v, In t (a_locks a) -> nth_error (s_root s) t = Some v ->
+        exists v', nth_error (s_root (step s i)) t = Some v' /\
+                   forall x, In x (tv_ids v') <-> (x = a_id a /\ In t (writes_of a)) \/ In x (tv_ids v))).
+Proof. exact root_step_cases_reachable. Qed.
+Print Assumptions C05_root_step_cases.
+
+Example C05_nonvacuous_wf :
+  wf_system 2 [(1%N, KWriter [0; 1] [0] true [] []); (2%N, KWriter [1] [1] true [] []); (3%N, KRegistrar)].
+Proof.
+  split.
+  - intros ik [<-|[<-|[<-|[]]]]; cbn; repeat split; try (intros x Hx; cbn in Hx; intuition (subst; cbn; auto)).
+  - cbn. repeat constructor; cbn; intuition discriminate.
+Qed.
